@@ -1771,7 +1771,6 @@ namespace gch
         : is_uninitialized_memcpyable_iterator<U, V>
       { };
 
-#ifndef NDEBUG
       GCH_NORETURN
       static GCH_CPP20_CONSTEXPR
       void
@@ -1784,7 +1783,6 @@ namespace gch
         std::abort ();
 #endif
       }
-#endif
 
       // Note: This accepts pointers to any object type because the memcpy paths are also selected
       //       for contiguous ranges of a different (bitwise-compatible) element type.
@@ -1844,10 +1842,8 @@ namespace gch
       {
         assert (0 <= (last - first) && "Invalid range.");
         const auto len = static_cast<std::size_t> (last - first);
-#ifndef NDEBUG
         if (numeric_max<size_ty> () < len)
           throw_range_length_error ();
-#endif
         return static_cast<size_ty> (len);
       }
 
@@ -1870,10 +1866,8 @@ namespace gch
 #endif
 
         const auto len = static_cast<std::size_t> (std::distance (first, last));
-#ifndef NDEBUG
         if (numeric_max<size_ty> () < len)
           throw_range_length_error ();
-#endif
         return static_cast<size_ty> (len);
       }
 
@@ -3477,7 +3471,7 @@ namespace gch
         size_ty count = external_range_length (first, last);
         if (InlineCapacity < count)
         {
-          set_data_ptr (unchecked_allocate (count));
+          set_data_ptr (checked_allocate (count));
           set_capacity (count);
           GCH_TRY
           {
